@@ -439,7 +439,6 @@ func c04WriteInvariant(r *Report, p *Prog) {
 
 // ---------- finalisation (Sum, SumSM3) ----------
 
-
 // finalBlocks: the last m compression calls read pend || 0x80 || 0^z || be64(bits) (m = 1 when nx0 <= 55, else 2)
 func (s *streamRun) finalBlocks(o protoOutcome, calls []cfCall, nx0 *pt, pend want, dataObj int, bits *pt) string {
 	m := len(calls)
